@@ -46,6 +46,9 @@ Pool == <<
                             <<DestructCall("selfdestruct", Payable(Var("heir")))>>)>>),
     Ct("TightAddr", <<StateVar("ta1", U256, <<>>, <<>>), StateVar("ta2", Ty("address", 0), <<>>, <<>>),
                       Fn("setTa", "public", <<Asg("ta1", Num("1")), Asg("ta2", MsgSender)>>)>>),
+    \* functions that are called like OTHER top-level items of the pool (a library, a contract): ordinary functions
+    Ct("NameClash", <<FnDecl("function", "LibFn", VisAttr("external"), <<<<[present |-> TRUE, storage |-> "memory", name |-> "blob1"]>>, <<N("E.ArraySubscript", A0, <<<<U256>>, <<>>>>)>>>>, <<>>, TRUE, <<>>),
+                      FnDecl("function", "FnOnly", VisAttr("public"), <<<<[present |-> TRUE, storage |-> "memory", name |-> "blob2"]>>, <<N("E.ArraySubscript", A0, <<<<U256>>, <<>>>>)>>>>, <<>>, TRUE, <<>>)>>),
     \* a loop without a condition, and a loop whose condition reads an array length, in different items
     Ct("Forever", <<Fn("spin", "public", <<N("S.For", A0, <<<<>>, <<>>, <<>>, <<Block(<<N("S.Break", A0, <<>>)>>)>>>>)>>)>>),
     Ct("LenLoop", <<StateVar("arr", N("E.ArraySubscript", A0, <<<<U256>>, <<>>>>), <<>>, <<>>),
